@@ -105,6 +105,9 @@ type Interp struct {
 	chanSeq  int
 	sched    *Sched
 	pcH1, pcH2 uint64
+	skipStub *ssa.Function
+	onFSEffect func(it *Interp, e FSEffect)
+	fsFaultsOff bool
 	cache    *SatCache
 	funcs    map[string]bool
 	probes   map[string]Value
@@ -417,11 +420,12 @@ type EngineFunc struct {
 
 func (it *Interp) call(fn *ssa.Function, args []Value, bind []Value) Value {
 	name := funcName(fn)
-	if it.job.Stubs != nil {
+	if it.job.Stubs != nil && it.skipStub != fn {
 		if h, ok := it.job.Stubs[name]; ok {
 			return h(it, fn, args)
 		}
 	}
+	it.skipStub = nil
 	if h, ok := intercepts[name]; ok {
 		return h(it, fn, args)
 	}
@@ -1415,7 +1419,7 @@ func (it *Interp) prepareCall(fr *frame, c *ssa.CallCommon) (Value, []Value) {
 			}
 			return h, args
 		}
-		fn := it.prog.LookupMethod(iv.T, c.Method.Pkg(), c.Method.Name())
+		fn := it.safeLookup(iv.T, c.Method.Pkg(), c.Method.Name())
 		if fn == nil {
 			it.inconclusive("method " + c.Method.Name() + " not found on " + typeName(iv.T))
 		}
